@@ -66,6 +66,10 @@ def gen_ops(rng, n, kinds):
             ops.append({"op": "call", "clzs": clzs, "root": pick_root(rng, decl), "lookup": rng.random() < 0.25})
         elif k == "rcall":
             ops.append({"op": "rcall", "clzs": clzs, "target": pick_root(rng, decl)})
+        elif k == "lookup":
+            # `coca call -l`: the forward graph of the target followed by its reverse graph
+            t = pick_root(rng, decl)
+            ops.append({"op": "call", "clzs": clzs, "root": t, "target": t, "lookup": True})
         else:
             apis = []
             for _ in range(rng.choice([0, 1, 2, 3])):
@@ -304,6 +308,22 @@ def oracle_c03(case, out, raw):
 
 def oracle_c04(case, out, raw):
     ds = []
+    if case["op"] == "call" and case.get("lookup") and "target" in case:
+        # `coca call -l target`: forward edges may be there too; every direct caller must be
+        if out is None or "panic" in out:
+            return [("panic", "call graph with lookup panicked: %s" % (raw or {}).get("panic"))]
+        clzs, tgt = case["clzs"], case["target"]
+        exp = rmap_expected(clzs)
+        edges, err = parse_dot(out["dot"], "digraph G {\n")
+        if edges is None:
+            return [("dot-malformed", err)] if names_ok(clzs, [tgt]) else []
+        missing = [c for c in exp.get(tgt, []) if c != tgt and (c, tgt) not in edges]
+        if missing:
+            if lastchild_can_fire(exp, tgt):
+                ds.append(("rcall-lastchild-drop", "direct caller %r of %r missing from `call -l` (a caller repeated at consecutive call sites)" % (missing[0], tgt)))
+            else:
+                ds.append(("direct-caller-missing", "`call -l`: direct caller %r of target %r missing" % (missing[0], tgt)))
+        return ds
     if case["op"] != "rcall":
         return ds
     if out is None or "panic" in out:
@@ -375,7 +395,7 @@ def make(prop):
     m.FAMILY = FAMILY
     m.GEN_GROUPS = GEN_GROUPS
     m.PROPS = [prop]
-    kinds = ["call", "call", "api"] if prop == "C03" else ["rcall"]
+    kinds = ["call", "call", "api"] if prop == "C03" else ["rcall", "rcall", "lookup"]
 
     def gen(rng, tier):
         nsh, per = (16, 130) if tier == "quick" else (64, 800)
@@ -385,7 +405,7 @@ def make(prop):
     m.nontrivial = lambda c, mo: '" -> "' in (mo.get("dot") or "")
     m.RULE = ("random code models (1-4 classes over 3 packages, 0-4 methods each from a 6-name pool so that duplicates and "
               "cycles are frequent; calls: 72% declared callee, unresolved, empty NodeName, creations, self calls; a name with a quote); "
-              "each shard is ONE process history of consecutive Analysis/AnalysisByFiles/rcall.Analysis calls; "
+              "each shard is ONE process history of consecutive Analysis/AnalysisByFiles/rcall.Analysis calls (C04: also `call -l`, i.e. Analysis with lookup on the target); "
               "non-trivial = the model's graph has at least one edge; distinct = distinct (model, root, options) JSON")
     m.ASSUMPTIONS = ["the implementation agrees with the Lean model outside the sampled inputs",
                      "Go map lookups/strings.Split/ReplaceAll behave as modelled (GoMap.get?, String.splitOn, String.replace)"]
